@@ -42,6 +42,19 @@ fn alpha(cfg: &Cfg) -> Vec<Op> {
         c(DecSet(vec![1047])),
         c(DecRst(vec![1047])),
         c(Decstr),
+        // "regardless of what was executed in between": sequences that look like saves,
+        // restores or mode switches but are none (a private marker, an intermediate, a
+        // different final) leave both saved contexts alone
+        Op::new(Inert("\x1b[?7s".into())),
+        Op::new(Inert("\x1b[?6s".into())),
+        Op::new(Inert("\x1b[?7r".into())),
+        Op::new(Inert("\x1b[?6;7r".into())),
+        Op::new(Inert("\x1b[?1048s".into())),
+        Op::new(Inert("\x1b[>s".into())),
+        Op::new(Inert("\x1b[?u".into())),
+        Op::new(Inert("\x1b[1 s".into())),
+        Op::new(Inert("\x1b 7".into())),
+        Op::new(Inert("\x1b#7".into())),
     ];
     v.push(Op::resize(cfg.cols.max(2) - 1, cfg.rows.max(2) - 1));
     v.push(Op::resize(cfg.cols + 1, cfg.rows + 1));
@@ -106,6 +119,9 @@ fn alpha_core(cfg: &Cfg) -> Vec<Op> {
         c(DecRst(vec![7])),
         c(Decstbm(Some(2), Some(rows))),
         c(Decstr),
+        c(DecSet(vec![7])),
+        Op::new(Inert("\x1b[?7s".into())),
+        Op::new(Inert("\x1b[?6;7r".into())),
         Op::resize(cfg.cols.max(2) - 1, cfg.rows.max(2) - 1),
         Op::resize(cfg.cols, cfg.rows),
     ]
